@@ -1007,6 +1007,12 @@ func oracleC15(r *CallRecord) []problem {
 			if s.HandlerCalls != 0 || s.Status != 400 {
 				add("a lost required parameter is answered 400", fmt.Sprintf("delivery %d: status %d, handler calls %d", i, s.Status, s.HandlerCalls))
 			}
+		case (r.Call.Op == "secure" || r.Call.Op == "secure2") && r.Call.Cred == "wrong" &&
+			((k == "drop-query" && r.Call.Fault.Arg == "who") || (k == "mangle" && r.Call.Fault.Arg == "query:who") || (k == "dup-query" && r.Call.Fault.Arg == "who")):
+			// two things are wrong with the request: the stage that comes first decides (security before parameters)
+			if s.HandlerCalls != 0 || s.Status != 401 {
+				add("a request without an acceptable credential is answered 401 whatever else is wrong with it (stage order)", fmt.Sprintf("delivery %d: status %d, handler calls %d", i, s.Status, s.HandlerCalls))
+			}
 		case k == "drop-query" && r.Call.Fault.Arg == "who" && (r.Call.Op == "secure" || r.Call.Op == "secure2"):
 			if s.HandlerCalls != 0 || (s.Status != 400 && s.Status != 401) {
 				add("a lost required parameter is answered 400", fmt.Sprintf("delivery %d: status %d, handler calls %d", i, s.Status, s.HandlerCalls))
